@@ -20,4 +20,198 @@ static inline int spec_same64(uint64_t a, uint64_t b) { return (spec_isnan64(a) 
 /* numeric equality (+0 == -0), NaN matches NaN */
 static inline int spec_numeq32(float a, float b) { return (a != a && b != b) || a == b; }
 static inline int spec_numeq64(double a, double b) { return (a != a && b != b) || a == b; }
+
+/* bit <-> value (duplicates of the base helpers so that this file is self-contained) */
+static inline float  spec_u2f(uint32_t u) { union { uint32_t u; float f; } c; c.u = u; return c.f; }
+static inline double spec_u2d(uint64_t u) { union { uint64_t u; double f; } c; c.u = u; return c.f; }
+static inline uint32_t spec_f2u(float f)  { union { uint32_t u; float f; } c; c.f = f; return c.u; }
+static inline uint64_t spec_d2u(double f) { union { uint64_t u; double f; } c; c.f = f; return c.u; }
+
+#if defined(AVM_NATIVE)
+#include <fenv.h>
+static inline int spec_cur_rm(void) { int m = fegetround(); return m == FE_TONEAREST ? 0 : m == FE_DOWNWARD ? 1 : m == FE_UPWARD ? 2 : 3; }
+static inline float spec_rti32(float x, int m) {
+  int old = fegetround(); fesetround(m == 0 ? FE_TONEAREST : m == 1 ? FE_DOWNWARD : m == 2 ? FE_UPWARD : FE_TOWARDZERO);
+  volatile float v = x; float r = nearbyintf(v); fesetround(old); return r; }
+static inline double spec_rti64(double x, int m) {
+  int old = fegetround(); fesetround(m == 0 ? FE_TONEAREST : m == 1 ? FE_DOWNWARD : m == 2 ? FE_UPWARD : FE_TOWARDZERO);
+  volatile double v = x; double r = nearbyint(v); fesetround(old); return r; }
+#else
+static inline int spec_cur_rm(void) { return __CPROVER_rounding_mode; }
+static inline float spec_rti32(float x, int m) { return __CPROVER_round_to_integralf(x, m); }
+static inline double spec_rti64(double x, int m) { return __CPROVER_round_to_integrald(x, m); }
+#endif
+
+/* ---- C11: rounding to integral values (same number as the C library function) ---- */
+static inline float  spec_ceil32(float x)  { return spec_rti32(x, 2); }
+static inline float  spec_floor32(float x) { return spec_rti32(x, 1); }
+static inline float  spec_trunc32(float x) { return spec_rti32(x, 3); }
+static inline double spec_ceil64(double x)  { return spec_rti64(x, 2); }
+static inline double spec_floor64(double x) { return spec_rti64(x, 1); }
+static inline double spec_trunc64(double x) { return spec_rti64(x, 3); }
+/* round: halfway cases away from zero = trunc(x) adjusted by one when the discarded fraction is >= 1/2 */
+static inline float spec_round32(float x) {
+  if (x != x) return x;
+  float t = spec_rti32(x, 3), d = x - t;            /* exact: |d| < 1 */
+  if (d >= 0.5f) return t + 1.0f;
+  if (d <= -0.5f) return t - 1.0f;
+  return t;
+}
+static inline double spec_round64(double x) {
+  if (x != x) return x;
+  double t = spec_rti64(x, 3), d = x - t;
+  if (d >= 0.5) return t + 1.0;
+  if (d <= -0.5) return t - 1.0;
+  return t;
+}
+static inline float  spec_nearbyint32(float x)  { return spec_rti32(x, spec_cur_rm()); }
+static inline double spec_nearbyint64(double x) { return spec_rti64(x, spec_cur_rm()); }
+
+/* ---- C13: classification by bit fields; values of <cmath>'s FP_* macros on this platform (glibc) ---- */
+#define SPEC_FP_NAN 0
+#define SPEC_FP_INFINITE 1
+#define SPEC_FP_ZERO 2
+#define SPEC_FP_SUBNORMAL 3
+#define SPEC_FP_NORMAL 4
+static inline int spec_fpclassify32(uint32_t u) {
+  return spec_isnan32(u) ? SPEC_FP_NAN : spec_isinf32(u) ? SPEC_FP_INFINITE : spec_iszero32(u) ? SPEC_FP_ZERO : spec_issub32(u) ? SPEC_FP_SUBNORMAL : SPEC_FP_NORMAL;
+}
+static inline int spec_fpclassify64(uint64_t u) {
+  return spec_isnan64(u) ? SPEC_FP_NAN : spec_isinf64(u) ? SPEC_FP_INFINITE : spec_iszero64(u) ? SPEC_FP_ZERO : spec_issub64(u) ? SPEC_FP_SUBNORMAL : SPEC_FP_NORMAL;
+}
+static inline int spec_isfinite32(uint32_t u) { return (u & 0x7f800000u) != 0x7f800000u; }
+static inline int spec_isfinite64(uint64_t u) { return (u & 0x7ff0000000000000ull) != 0x7ff0000000000000ull; }
+static inline int spec_isnormal32(uint32_t u) { return spec_fpclassify32(u) == SPEC_FP_NORMAL; }
+static inline int spec_isnormal64(uint64_t u) { return spec_fpclassify64(u) == SPEC_FP_NORMAL; }
+static inline int spec_signbit32(uint32_t u) { return (int)(u >> 31); }
+static inline int spec_signbit64(uint64_t u) { return (int)(u >> 63); }
+
+/* ---- C12 ---- */
+#define SPEC_ILOGB0   (-2147483647 - 1)
+#define SPEC_ILOGBNAN (-2147483647 - 1)
+/* unbiased exponent of a finite non-zero value, subnormals normalised */
+static inline int32_t spec_exp32(uint32_t u) {
+  int32_t e = (int32_t)((u >> 23) & 0xff);
+  uint32_t f = u & 0x7fffffu;
+  if (e != 0) return e - 127;
+  int32_t r = -127;
+  for (int i = 0; i < 23; i++) { if (f & 0x400000u) break; f <<= 1; r--; }
+  return r;
+}
+static inline int32_t spec_exp64(uint64_t u) {
+  int32_t e = (int32_t)((u >> 52) & 0x7ff);
+  uint64_t f = u & 0xfffffffffffffull;
+  if (e != 0) return e - 1023;
+  int32_t r = -1023;
+  for (int i = 0; i < 52; i++) { if (f & 0x8000000000000ull) break; f <<= 1; r--; }
+  return r;
+}
+static inline int32_t spec_ilogb32(uint32_t u) {
+  if (spec_isnan32(u)) return SPEC_ILOGBNAN;
+  if (spec_isinf32(u)) return 2147483647;
+  if (spec_iszero32(u)) return SPEC_ILOGB0;
+  return spec_exp32(u);
+}
+static inline int32_t spec_ilogb64(uint64_t u) {
+  if (spec_isnan64(u)) return SPEC_ILOGBNAN;
+  if (spec_isinf64(u)) return 2147483647;
+  if (spec_iszero64(u)) return SPEC_ILOGB0;
+  return spec_exp64(u);
+}
+/* logb: as a floating value; -inf for zeros, +inf for infinities, NaN for NaN */
+static inline int spec_logb_ok32(uint32_t r, uint32_t u) {
+  if (spec_isnan32(u)) return spec_isnan32(r);
+  if (spec_isinf32(u)) return r == 0x7f800000u;
+  if (spec_iszero32(u)) return r == 0xff800000u;
+  return spec_u2f(r) == (float)spec_exp32(u);
+}
+static inline int spec_logb_ok64(uint64_t r, uint64_t u) {
+  if (spec_isnan64(u)) return spec_isnan64(r);
+  if (spec_isinf64(u)) return r == 0x7ff0000000000000ull;
+  if (spec_iszero64(u)) return r == 0xfff0000000000000ull;
+  return spec_u2d(r) == (double)spec_exp64(u);
+}
+/* frexp: zeros return themselves with exponent 0; infinities and NaN return themselves (exponent unspecified);
+ * otherwise the significand keeps sign and fraction bits, has exponent field bias-1 (value in [0.5,1)) and e = exp + 1 */
+static inline int spec_frexp_ok32(uint32_t m, int32_t e, uint32_t x) {
+  if (spec_isnan32(x)) return spec_isnan32(m);
+  if (spec_isinf32(x)) return m == x;
+  if (spec_iszero32(x)) return m == x && e == 0;
+  uint32_t f = x & 0x7fffffu;
+  if (((x >> 23) & 0xff) == 0) { for (int i = 0; i < 23; i++) { f <<= 1; if (f & 0x800000u) break; } f &= 0x7fffffu; }
+  return m == ((x & 0x80000000u) | (126u << 23) | f) && e == spec_exp32(x) + 1;
+}
+static inline int spec_frexp_ok64(uint64_t m, int32_t e, uint64_t x) {
+  if (spec_isnan64(x)) return spec_isnan64(m);
+  if (spec_isinf64(x)) return m == x;
+  if (spec_iszero64(x)) return m == x && e == 0;
+  uint64_t f = x & 0xfffffffffffffull;
+  if (((x >> 52) & 0x7ff) == 0) { for (int i = 0; i < 52; i++) { f <<= 1; if (f & 0x10000000000000ull) break; } f &= 0xfffffffffffffull; }
+  return m == ((x & 0x8000000000000000ull) | (1022ull << 52) | f) && e == spec_exp64(x) + 1;
+}
+/* ldexp / scalbn: x * 2^e with ONE rounding (exact intermediate), overflow to infinity, gradual underflow;
+ * zeros, infinities and NaN return themselves.  binary32: the product is exact in binary64 for |e| clamped to 400
+ * (beyond that the result is already the overflow / underflow limit) */
+static inline int spec_ldexp_ok32(uint32_t r, uint32_t x, int32_t e) {
+  if (spec_isnan32(x)) return spec_isnan32(r);
+  if (spec_isinf32(x) || spec_iszero32(x)) return r == x;
+  int32_t k = e > 400 ? 400 : (e < -400 ? -400 : e);
+  double p = spec_u2d((uint64_t)(1023 + k) << 52);
+  return r == spec_f2u((float)((double)spec_u2f(x) * p));
+}
+/* fmax / fmin: the larger / smaller operand; the other operand when exactly one is NaN; NaN when both are; either zero for +-0 */
+static inline int spec_fmax_ok32(uint32_t r, uint32_t a, uint32_t b) {
+  if (spec_isnan32(a) && spec_isnan32(b)) return spec_isnan32(r);
+  if (spec_isnan32(a)) return r == b;
+  if (spec_isnan32(b)) return r == a;
+  float fa = spec_u2f(a), fb = spec_u2f(b);
+  if (fa == fb) return r == a || r == b;
+  return r == (fa > fb ? a : b);
+}
+static inline int spec_fmin_ok32(uint32_t r, uint32_t a, uint32_t b) {
+  if (spec_isnan32(a) && spec_isnan32(b)) return spec_isnan32(r);
+  if (spec_isnan32(a)) return r == b;
+  if (spec_isnan32(b)) return r == a;
+  float fa = spec_u2f(a), fb = spec_u2f(b);
+  if (fa == fb) return r == a || r == b;
+  return r == (fa < fb ? a : b);
+}
+static inline int spec_fmax_ok64(uint64_t r, uint64_t a, uint64_t b) {
+  if (spec_isnan64(a) && spec_isnan64(b)) return spec_isnan64(r);
+  if (spec_isnan64(a)) return r == b;
+  if (spec_isnan64(b)) return r == a;
+  double fa = spec_u2d(a), fb = spec_u2d(b);
+  if (fa == fb) return r == a || r == b;
+  return r == (fa > fb ? a : b);
+}
+static inline int spec_fmin_ok64(uint64_t r, uint64_t a, uint64_t b) {
+  if (spec_isnan64(a) && spec_isnan64(b)) return spec_isnan64(r);
+  if (spec_isnan64(a)) return r == b;
+  if (spec_isnan64(b)) return r == a;
+  double fa = spec_u2d(a), fb = spec_u2d(b);
+  if (fa == fb) return r == a || r == b;
+  return r == (fa < fb ? a : b);
+}
+/* fdim: max(x - y, +0); NaN if either operand is NaN */
+static inline int spec_fdim_ok32(uint32_t r, uint32_t a, uint32_t b) {
+  if (spec_isnan32(a) || spec_isnan32(b)) return spec_isnan32(r);
+  float fa = spec_u2f(a), fb = spec_u2f(b);
+  return fa > fb ? spec_numeq32(spec_u2f(r), fa - fb) : spec_iszero32(r);
+}
+static inline int spec_fdim_ok64(uint64_t r, uint64_t a, uint64_t b) {
+  if (spec_isnan64(a) || spec_isnan64(b)) return spec_isnan64(r);
+  double fa = spec_u2d(a), fb = spec_u2d(b);
+  return fa > fb ? spec_numeq64(spec_u2d(r), fa - fb) : spec_iszero64(r);
+}
+/* frac: x - trunc(x); zero for zeros and integral values; NaN for infinities and NaN */
+static inline int spec_frac_ok32(uint32_t r, uint32_t x) {
+  if (spec_isnan32(x) || spec_isinf32(x)) return spec_isnan32(r);
+  float f = spec_u2f(x);
+  return spec_numeq32(spec_u2f(r), f - spec_trunc32(f));
+}
+static inline int spec_frac_ok64(uint64_t r, uint64_t x) {
+  if (spec_isnan64(x) || spec_isinf64(x)) return spec_isnan64(r);
+  double f = spec_u2d(x);
+  return spec_numeq64(spec_u2d(r), f - spec_trunc64(f));
+}
 #endif
